@@ -49,7 +49,17 @@ def run(model, rep, tier):
     rep.ob('normalised-sites', mod, init, 'ordinary sites are sorted; the 2 transition / 1 vacancy sites stay in front', all(sorts),
            '' if all(sorts) else 'site order (hence the reference site) depends on the order the sites were given in', engine='eqhash',
            qual='Cluster.__init__')
-    ok = pattern.has(init, 'if transition:\n    self.Norder -= 2\nelif vacancy:\n    self.Norder -= 1') and pattern.has(init, 'self.Norder = len(self.sites)')
+    # Norder = len(sites), reduced by 2 exactly when ``transition`` and by 1 exactly when ``vacancy`` and not transition
+    # (``-=`` or spelled out; if/elif or any equivalent nesting: decided by the conditions holding at each reduction)
+    from ._common import conditions_at, update_of
+    reds = set()
+    for st_ in walk_local(init):
+        if isinstance(st_, (ast.Assign, ast.AugAssign)):
+            u = update_of(st_)
+            if u and u[0] == 'self.Norder' and u[1] == 'Sub' and isinstance(u[2], ast.Constant):
+                reds.add((u[2].value, frozenset(c for c in conditions_at(init, st_) if 'transition' in c or 'vacancy' in c)))
+    ok = reds == {(2, frozenset({'transition'})), (1, frozenset({'not transition', 'vacancy'}))} \
+        and pattern.has(init, 'self.Norder = len(self.sites)')
     rep.ob('normalised-sites', mod, init, 'Norder = number of sites minus the special (2 / 1) sites', ok,
            '' if ok else 'cluster order counts the transition / vacancy sites', engine='eqhash', qual='Cluster.__init__')
     g = ci.methods.get('g')
@@ -83,39 +93,52 @@ def run(model, rep, tier):
     rep.ob('transition-either-direction', mod, it, 'istransition: forward test (sites[0], sites[1]) == (s0 - R0, s1 - R0); reverse = its image under s0<->s1',
            ok, '' if ok else 'a jump given in the reverse direction is not recognised as the same transition state (or only on one site '
                              'index): i->j and j->i forms of one cluster compare unequal', engine='exchange', qual='Cluster.istransition')
-    okv = any(isinstance(n, ast.If) and any(isinstance(o, ast.If) and unparse(o.test) == 'self.__vacancy__'
-                                            and any(isinstance(r, ast.Return) and isinstance(r.value, ast.Constant) and r.value.value is False for r in o.body)
-                                            for o in n.orelse) for n in it.body)
+    # the reverse test is reached only when the cluster is not a vacancy cluster (elif ... return False, or an early return)
+    ifs_true = [n for n in it.body if isinstance(n, ast.If) and any(isinstance(s, ast.Return) and isinstance(s.value, ast.Constant)
+                                                                   and s.value.value is True for s in n.body)]
+    okv = len(ifs_true) == 2 and 'not self.__vacancy__' in conditions_at(it, ifs_true[1]) \
+        and 'not self.__vacancy__' not in conditions_at(it, ifs_true[0])
     rep.ob('transition-either-direction', mod, it, 'vacancy transition clusters are oriented: no reverse match', okv,
            '' if okv else 'vacancy TS clusters match the reverse jump', engine='exchange', qual='Cluster.istransition')
     # ---- orbit closure
+    # evaluated on the normal form: a local helper that builds the orbit is written out where it is called
+    import re
+    nmodel = model.normal()
+    nmod = nmodel.mod('cluster')
     n_sites = 0
     for fname in ('makeclusters', 'makeTSclusters', 'makeVacancyClusters'):
-        fn = model.func('cluster', fname)
-        for b in pattern.find(fn, '_N_s = set([_N_c.g(crys, _N_g) for _N_g in _E_grp])'):
+        fn = nmodel.func('cluster', fname)
+        found = pattern.find(fn, '_N_s = set([_N_c.g(crys, _N_g) for _N_g in _E_grp])') + \
+            pattern.find(fn, '_N_s = {_N_c.g(crys, _N_g) for _N_g in _E_grp}')
+        for b in found:
             n_sites += 1
             blk = getattr(b['_node'], '_parent', None)
             whole = b['_E_grp'] == 'crys.G'
-            rep.ob('orbit-closure', mod, b['_node'], '%s: images taken under %s' % (fname, b['_E_grp']), whole,
+            rep.ob('orbit-closure', nmod, b['_node'], '%s: images taken under %s' % (fname, b['_E_grp']), whole,
                    '' if whole else 'the orbit is generated from a subset of the space group: symmetry-equivalent clusters end up in '
                                     'different sets', engine='owner', qual=fname)
             ok = pattern.has(blk, '_N_e.append(_N_s)', _N_s=b['_N_s']) and pattern.has(blk, '_N_seen.update(_N_s)', _N_s=b['_N_s'])
-            guard = isinstance(blk, ast.If) and pattern.has(blk.test, '_N_c not in _N_seen', 'expr', _N_c=b['_N_c'])
-            seen_same = False
-            if guard:
-                seen = pattern.find(blk.test, '_N_c not in _N_seen', 'expr')[0]['_N_seen']
-                seen_same = pattern.has(blk, '_N_seen.update(_N_s)', _N_seen=seen, _N_s=b['_N_s'])
-            rep.ob('orbit-closure', mod, b['_node'], '%s: `%s` appended to the expansion and merged into the seen-set it was tested against'
-                   % (fname, unparse(b['_node'])[:70]), ok and guard and seen_same,
+            seen = [m.group(1) for m in (re.fullmatch(re.escape(b['_N_c']) + r' not in (\w+)', c) for c in conditions_at(fn, b['_node'])) if m]
+            guard = bool(seen)
+            seen_same = guard and pattern.has(blk, '_N_seen.update(_N_s)', _N_seen=seen[0], _N_s=b['_N_s'])
+            rep.ob('orbit-closure', nmod, b['_node'], '%s: `%s` appended to the expansion and merged into the seen-set it was tested against'
+                   % (fname, unparse(b['_node'])[:70]), bool(ok and guard and seen_same),
                    '' if ok and guard and seen_same else 'the orbit of a new representative is not recorded as seen (duplicates) or not '
                                                         'output (missing clusters)', engine='owner', qual=fname)
     rep.floor('orbit generation sites', n_sites, 5)
     ts = model.func('cluster', 'makeTSclusters')
-    rev = pattern.find(ts, 'for _N_g in crys.G:\n    _N_s.add(_N_r.g(crys, _N_g))')
+    # the reversed cluster's images under every g of crys.G enter the same set: one add per g, or one update with a generator
+    rev = pattern.find(ts, 'for _N_g in crys.G:\n    _N_s.add(_N_r.g(crys, _N_g))') + \
+        pattern.find(ts, '_N_s.update((_N_r.g(crys, _N_g) for _N_g in crys.G))') + \
+        pattern.find(ts, '_N_s.update([_N_r.g(crys, _N_g) for _N_g in crys.G])') + \
+        pattern.find(ts, '_N_s.update({_N_r.g(crys, _N_g) for _N_g in crys.G})')
     ok = False
     for b in rev:
         blk = getattr(b['_node'], '_parent', None)
-        ok = pattern.has(blk, '_N_s = set([_N_c.g(crys, _N_g2) for _N_g2 in crys.G])', _N_s=b['_N_s']) and \
+        if isinstance(blk, ast.Expr):
+            blk = getattr(blk, '_parent', None)
+        ok = ok or (pattern.has(blk, '_N_s = set([_N_c.g(crys, _N_g2) for _N_g2 in crys.G])', _N_s=b['_N_s'])
+                    or pattern.has(blk, '_N_s = {_N_c.g(crys, _N_g2) for _N_g2 in crys.G}', _N_s=b['_N_s'])) and \
             bool(pattern.find(blk, '_N_r = Cluster(_N_rp + _N_cl, transition=True, vacancy=True)', _N_r=b['_N_r']))
     rep.ob('orbit-closure', mod, ts, 'vacancy TS clusters: the orbit of the reversed cluster joins the same set', ok,
            '' if ok else 'vacancy transition-state classes are not closed under reversal', engine='owner', qual='makeTSclusters')
@@ -126,11 +149,18 @@ def run(model, rep, tier):
     fb = [n for n in walk_local(jn) if isinstance(n, ast.Assign) and unparse(n.targets[0]) == 'nmax']
     if len(fa) != 1 or len(fb) != 1:
         raise AnalysisError('nmax definitions not found')
-    ok = canon(fa[0].value) == canon(rename(fb[0].value, {'self': 'crys'}))
+    from .C21 import _anon_comp
+    ok = canon(_anon_comp(fa[0].value)) == canon(rename(_anon_comp(fb[0].value), {'self': 'crys'}))
     rep.ob('neighbour-window', mod, fa[0], 'makeclusters nmax = %s' % unparse(fa[0].value), ok,
            '' if ok else 'differs from Crystal.jumpnetwork (%s): neighbours inside the cutoff can be missed' % unparse(fb[0].value),
            engine='siblings', qual='makeclusters')
-    ok = pattern.has(mc, '_N_r2 = cutoff * cutoff') and pattern.has(mc, '0 < np.dot(_N_dx, _N_dx) < _N_r2', 'expr')
+    # window on the normal form (a temporary holding |dx|^2 is written out); chained or conjunction spelling
+    nmc = nmodel.func('cluster', 'makeclusters')
+    hits = pattern.find(nmc, '0 < np.dot(_N_dx, _N_dx) < _E_r2', 'expr') + \
+        pattern.find(nmc, '0 < np.dot(_N_dx, _N_dx) and np.dot(_N_dx, _N_dx) < _E_r2', 'expr') + \
+        pattern.find(nmc, 'np.dot(_N_dx, _N_dx) > 0 and np.dot(_N_dx, _N_dx) < _E_r2', 'expr')
+    r2names = {b['_N_r2'] for b in pattern.find(nmc, '_N_r2 = cutoff * cutoff')}
+    ok = any(h['_E_r2'] == 'cutoff * cutoff' or h['_E_r2'] in r2names for h in hits)
     rep.ob('neighbour-window', mod, mc, 'makeclusters accepts 0 < |dx|^2 < cutoff^2', ok, '' if ok else 'acceptance window changed',
            engine='siblings', qual='makeclusters')
     ok = pattern.has(mc, 'if all((ClusterSite(_N_c.ci, _N_c.R - _N_R0) in _N_nl for _N_c in _N_prev)):\n    _E_b'.replace('_E_b', 'pass')) or \
